@@ -61,7 +61,31 @@ type fixtures struct {
 var fx *fixtures
 
 func payloadOf(tag string) []byte {
+	if tag == "B" {
+		// B's payload carries members a JWT library would read as registered
+		// claims (expired long ago, not valid for decades): to this library a
+		// payload is a payload
+		return []byte(fmt.Sprintf(`{"targetArtifact":{"digest":"sha256:%s","size":7},"exp":1,"nbf":9999999999,"iat":9999999999}`, strings.Repeat(tag, 8)))
+	}
 	return []byte(fmt.Sprintf(`{"targetArtifact":{"digest":"sha256:%s","size":7}}`, strings.Repeat(tag, 8)))
+}
+
+// dress gives the requests A and P (the parsed fixture) a signing agent and
+// extended attributes, one of them critical; B has neither - so that whatever
+// survives from an earlier signature shows.
+func dress(req *signature.SignRequest, tag string) {
+	if tag == "A" || tag == "P" {
+		req.SigningAgent = "agent/" + tag
+		req.ExtendedSignedAttributes = []signature.Attribute{{Key: "io.c20.crit." + tag, Critical: true, Value: "c"}, {Key: "io.c20.plain", Value: tag}}
+	}
+}
+
+func dressWant(w *envcmp.Want, tag string) *envcmp.Want {
+	if tag == "A" || tag == "P" {
+		w.Agent = "agent/" + tag
+		w.Attrs = []signature.Attribute{{Key: "io.c20.crit." + tag, Critical: true, Value: "c"}, {Key: "io.c20.plain", Value: tag}}
+	}
+	return w
 }
 
 func setup() *fixtures {
@@ -74,13 +98,14 @@ func setup() *fixtures {
 		signer, _ := sims.NewLocal(f.chain)
 		req := sims.BaseRequest(mt, signer, signature.SigningSchemeX509)
 		req.Payload.Content = payloadOf("P")
+		dress(req, "P")
 		env, _ := signature.NewEnvelope(mt)
 		raw, err := env.Sign(req)
 		if err != nil {
 			panic(err)
 		}
 		f.parsed[mt] = raw
-		f.wantP[mt] = want(mt, f.chain, payloadOf("P"), sims.SignTime)
+		f.wantP[mt] = dressWant(want(mt, f.chain, payloadOf("P"), sims.SignTime), "P")
 		t := append([]byte{}, raw...)
 		// tamper with the payload: the signature no longer verifies
 		if mt == sims.JWS {
@@ -184,6 +209,7 @@ func execute(r *core.Run, c *Case) {
 		req := sims.BaseRequest(mt, signer, signature.SigningSchemeX509)
 		req.Payload.Content = payload
 		req.SigningTime = st
+		dress(req, tag)
 		return req, rs
 	}
 	for i, op := range c.Ops {
@@ -217,7 +243,7 @@ func execute(r *core.Run, c *Case) {
 				fail(i, "valid-sign-failed", fmt.Sprintf("valid request failed: %v", serr))
 				return
 			}
-			w := want(mt, fx.chain, payloadOf(tag), sims.SignTime)
+			w := dressWant(want(mt, fx.chain, payloadOf(tag), sims.SignTime), tag)
 			// the returned bytes, parsed afresh, must carry the request
 			fresh, perr := signature.ParseEnvelope(mt, raw)
 			if perr != nil {
